@@ -58,7 +58,7 @@ AlgoGroups(X, P) == Groups(AlgoTuples(X, P))
 
 \* precondition of C01/C02: every perpendicular width > diameter + 2 tol  (tol = tn/td lattice units);
 \* checked in squared form with a rational upper bound dn/dd >= diameter + 2 tol
-WidthsOK(X, dn, dd) == WidthExceeds(X.cell, dn, dd)
+WidthsOK(X, dn, dd) == IF CellDet(X.cell) > 40000 THEN WidthExceedsBig(X.cell, dn, dd) ELSE WidthExceeds(X.cell, dn, dd)
 AtomsInside(X) == \A a \in 1..Len(X.atoms) : Wrap(X.cell, X.atoms[a].pos) = X.atoms[a].pos
 
 ---------------------------------------------------------------------------
@@ -73,7 +73,7 @@ AtomsInside(X) == \A a \in 1..Len(X.atoms) : Wrap(X.cell, X.atoms[a].pos) = X.at
 (* RotBound: 1000 * (1 + allowance for np.allclose's relative term).        *)
 \* upper bound on diameter + 2 tol (tol <= 1/16): ceil(sqrt(Diameter2)) + 1/8, as a rational over 8
 DiamBoundNum(P) == LET d2 == Diameter2(PatPos(P))
-                       r == CHOOSE r \in 0..9 : r * r >= d2 /\ (r = 0 \/ (r - 1) * (r - 1) < d2)
+                       r == CHOOSE r \in 0..60 : r * r >= d2 /\ (r = 0 \/ (r - 1) * (r - 1) < d2)
                    IN 8 * r + 1
 Precondition(X, P) == AtomsInside(X) /\ WidthsOK(X, DiamBoundNum(P), 8)
 
